@@ -500,21 +500,26 @@ Lemma probe_Print_unknown_directive :
     (NPrint 10 (NNull 11) [NDirective 20 bx [NNull 21]]) ev_PrintNode [DIf false; DLoop 0; DLoop 1; DIf true] st0.
 Proof. probe. Qed.
 
-(* DIFF (model infidelity, found by this tie): when the Apply of a directive fails, exec.go has not evaluated the
-   arguments of the LATER directives (the loop applies each directive right after its arguments); [print_dirs]
-   evaluates the arguments of all directives first and [print_writes] applies them afterwards.  Same outcome class
-   (an error either way), but when a later argument fails too, or looks up an unbound name, the model reports that
-   failure (and its position) instead of the Apply's.  Witness on the real code:
+(* when the Apply of a directive fails, exec.go has not evaluated the arguments of the LATER directives (the loop
+   applies each directive right after its arguments), and so does [print_dirs] (it used to evaluate the arguments of
+   all directives first: a model infidelity found by this tie and repaired).  Witness on the real code:
      {$x|truncate:'a'|truncate:<newline>$u.v}  with x = "hello", u unbound
-   robfig/soy: "template n.t:7: panic in |truncate:'a' ..." (line of the print); model: the error of $u.v, line 8.
-   The probe: |truncate:"s" (Apply fails) |truncate:<marker 31>; the event list stops at the first Apply, the
-   model's trace goes on to evaluate marker 31. *)
-Lemma probe_Print_apply_order_differs :
-  ~ probe_ok cf0 (mkpe [R0 "node" 10; R0 "node.Arg" 11; R2 "?[].Args[]" 0 0 21; R2 "?[].Args[]" 0 1 31] [S0 "?.String()" bx]
-                    [(11, Ok (VStr bx)); (21, Ok (VStr bx)); (31, Ok (VInt 7))])
-      (NPrint 10 (NNull 11) [NDirective 20 d_trunc [NNull 21]; NDirective 30 d_trunc [NNull 31]]) ev_PrintNode
-      [DIf false; DLoop 0; DLoop 2; DIf false; DIf false; DLoop 1; DFails true] st0.
-Proof. unfold probe_ok; vm_compute; discriminate. Qed.
+   robfig/soy: "template n.t:7: panic in |truncate:'a' ..." (line of the print, nothing looked up after it).
+   The probe: |truncate:"s" (Apply fails) |truncate:<marker 31>; the event list stops at the first Apply, and so
+   does the model's trace: marker 31 is not evaluated. *)
+Lemma probe_Print_apply_order :
+  probe_ok cf0 (mkpe [R0 "node" 10; R0 "node.Arg" 11; R2 "?[].Args[]" 0 0 21; R2 "?[].Args[]" 0 1 31] [S0 "?.String()" bx]
+                  [(11, Ok (VStr bx)); (21, Ok (VStr bx)); (31, Ok (VInt 7))])
+    (NPrint 10 (NNull 11) [NDirective 20 d_trunc [NNull 21]; NDirective 30 d_trunc [NNull 31]]) ev_PrintNode
+    [DIf false; DLoop 0; DLoop 2; DIf false; DIf false; DLoop 1; DFails true] st0.
+Proof. probe. Qed.
+(* the second Apply fails: both argument lists evaluated, the first directive applied *)
+Lemma probe_Print_apply_second_fails :
+  probe_ok cf0 (mkpe [R0 "node" 10; R0 "node.Arg" 11; R2 "?[].Args[]" 0 0 21; R2 "?[].Args[]" 0 1 31] [S0 "?.String()" bx]
+                  [(11, Ok (VStr bx)); (21, Ok (VInt 5)); (31, Ok (VStr bx))])
+    (NPrint 10 (NNull 11) [NDirective 20 d_trunc [NNull 21]; NDirective 30 d_trunc [NNull 31]]) ev_PrintNode
+    [DIf false; DLoop 0; DLoop 2; DIf false; DIf false; DLoop 1; DFails false; DIf false; DIf false; DIf false; DLoop 1; DFails true] st0.
+Proof. probe. Qed.
 
 (* ---- FunctionNode: arity, then the arguments in order, then Apply ---- *)
 Definition n_len := Eval vm_compute in b "length".
